@@ -1,7 +1,7 @@
 #!/bin/bash
 # usage: tools/seedrun.sh <id> [props...]  — confirm a sub-agent seed from /tmp/seed2/out/<id> and run the checks on it
 id=$1; shift
-d=/tmp/seed2/out/$id
+d=${SEEDDIR:-/tmp/seed2}/out/$id
 pkg=$(python3 -c "import json;print(json.load(open('$d/meta.json'))['package'])")
 echo "== $id ($pkg)"; python3 -c "import json;print(json.load(open('$d/meta.json'))['summary'][:300])"
 tools/confirm_seed.sh $id $d/patch.diff $d/demo_test.go.txt $pkg
